@@ -54,7 +54,9 @@ package evaluator
 //@   ensures[C12 C11] str.count: isStr(v) ==> runes(str(result)) == pyLen(pyStart(runes(str(v)), start, step), pyStop(runes(str(v)), stop, step), step)
 //@   loop 1
 //@     invariant 0 <= i && i <= n && n == len(r) && fresh(r) && soffZero(r)
-//@     invariant n == pyLen(pyStart(l, start0, step), pyStop(l, stop0, step), step) && start == pyStart(l, start0, step) && l == len(a)
+//@     invariant l == len(a) && start == pyStart(l, start0, step)
+//@     invariant step > 0 ==> n == pyLen(pyStart(l, start0, step), pyStop(l, stop0, step), step)
+//@     invariant step < 0 ==> n == pyLen(pyStart(l, start0, step), pyStop(l, stop0, step), step)
 //@     invariant forall k Int :: 0 <= k && k < n ==> 0 <= start + k * step && start + k * step < l
 //@     invariant i < n ==> j == start + i * step
 //@     invariant forall k Int :: 0 <= k && k < i ==> r[k] == a[start + k * step]
